@@ -58,3 +58,10 @@ package epubdoc
 //@   ensures in_declared_order: len(spine) == len(s.ItemRefs) && forall k int :: {spine[k]} 0 <= k && k < len(spine) ==> spine[k].IDRef == s.ItemRefs[k].IDRef && (spine[k].Linear <==> s.ItemRefs[k].Linear != "no")
 //@   loop 0:
 //@     invariant len(spine) == $i && forall k int :: {spine[k]} 0 <= k && k < $i ==> spine[k].IDRef == s.ItemRefs[k].IDRef && (spine[k].Linear <==> s.ItemRefs[k].Linear != "no")
+
+// ---- C10: Close releases the archive handle when the reader owns one (OpenReader-built readers own none) ----
+//@ func (*Reader) Close results (err)
+//@   property C10
+//@   count closed: Close() when true
+//@   ensures handle_released: !isnil(r.zr) ==> closed == 1
+//@   ensures nothing_to_close: isnil(r.zr) ==> closed == 0 && !err
